@@ -4,7 +4,12 @@ import AdaptiveProofs.Lemmas.LNDCover
 /-! Queue completeness of the LearnerND model WITHOUT the ghost flag `geomOK` (C04): under explicit truthfulness
 hypotheses on the oracles `choose_point_in_simplex` / `point_in_simplex` / `inside_bounds` / sub-triangulation
 `add_point` (`ChooseGeom`), the (sub)simplex `_ask_best_point` chooses for subdivision is no longer a live queue
-key afterwards — which is what the ghost recorded — so the queue is complete in every reachable state. -/
+key afterwards — which is what the ghost recorded — so the queue is complete in every reachable state.
+
+Since the repair `fix: LearnerND.tell_pending marked an already evaluated point as pending` this needs one more
+hypothesis: the chosen point has NO VALUE (`ChooseNewAt`, along a history `AskNew`).  `tell_pending` of a point that has
+a value is a no-op now, so `_ask_best_point` — having popped the queue entry — would leave the (sub)simplex live and
+unqueued (before the repair the call went on into `subtri.add_point`, which raises for a vertex). -/
 set_option linter.unusedSectionVars false
 set_option linter.unusedSimpArgs false
 set_option linter.unusedVariables false
@@ -131,15 +136,19 @@ theorem mem_neighborsOf_self {simps : List Simplex} {sx : Simplex} (h : sx ∈ s
   | nil => exact absurd rfl hne
   | cons i l => exact ⟨i, List.mem_cons_self .., by simp⟩
 
-/-- `tell_pending(point, simplex=hint)` with an existing triangulation, a point of the domain and a non-empty
-hint: the loop over the hint's neighbours runs -/
+/-- `tell_pending(point, simplex=hint)` with an existing triangulation, a point of the domain that has no value
+and a non-empty hint: the loop over the hint's neighbours runs -/
 theorem tellPending_hint (env : Env α) {s s' : State α} {vs : List Pt} (p : Pt) (sx : Simplex)
-    (ht : s.tri = some vs) (hin : env.inside p = true) (hne : sx ≠ [])
+    (ht : s.tri = some vs) (hd : p ∉ s.data) (hin : env.inside p = true) (hne : sx ≠ [])
     (h : tellPending env s p (some sx) = .ok s') :
     ∃ b, pendLoop env vs s.losses p s.book (neighborsOf (env.triSimps vs.length) sx) = .ok b ∧
       s'.tri = some vs ∧ s'.book = b := by
   unfold tellPending at h
-  simp only [hin, Bool.not_true, Bool.false_eq_true, if_false] at h
+  have hd' : s.data.contains p = false := by
+    cases hc : s.data.contains p with
+    | false => rfl
+    | true => exact absurd (List.contains_iff_mem.1 hc) hd
+  simp only [hd', hin, Bool.not_true, Bool.false_eq_true, if_false] at h
   have h1 : touchTri env { s with pending := if s.pending.contains p then s.pending else s.pending ++ [p] } =
       .ok { s with pending := if s.pending.contains p then s.pending else s.pending ++ [p] } :=
     touchTri_some env ht
@@ -168,11 +177,47 @@ def chosenPts (vs : List Pt) (subs : List (Simplex × List Pt)) (e : QE α) : Li
   | none => ptsOf vs e.simplex
   | some ss => ptsOf ((get? e.simplex subs).getD []) ss
 
-/-- THE GHOST, PROVED: after `_ask_best_point` told the chosen point pending, the (sub)simplex it had chosen for
-subdivision is not a live queue key any more -/
+/-- the point `_ask_best_point` would choose in state `t` (for the queue entry it pops there) has no value.  Needed
+since the repair `fix: LearnerND.tell_pending marked an already evaluated point as pending`: `tell_pending` of a
+point that has a value is a no-op now, so the popped (sub)simplex would stay live without a queue entry.  (The data
+half of `ChooseFreshAt`; true of the real code — a chosen point is interior to its simplex or an edge midpoint, never a
+vertex of a valid triangulation.) -/
+def ChooseNewAt (env : Env α) (t : State α) : Prop :=
+  ∀ vs e q, t.tri = some vs →
+    popHighest env (env.triSimps vs.length) t.book.subs t.book.queue = some (e, q) →
+    env.choose (chosenPts vs t.book.subs e) ∉ t.data
+
+/-- `ChooseNewAt`, executable -/
+def chooseNewB (env : Env α) (t : State α) : Bool :=
+  match t.tri with
+  | none => true
+  | some vs =>
+    match popHighest env (env.triSimps vs.length) t.book.subs t.book.queue with
+    | none => true
+    | some (e, _) => !(t.data.contains (env.choose (chosenPts vs t.book.subs e)))
+
+theorem chooseNewB_sound (env : Env α) (t : State α) (h : chooseNewB env t = true) : ChooseNewAt env t := by
+  intro vs e q ht hp hc
+  unfold chooseNewB at h
+  rw [ht] at h
+  simp only [hp, List.contains_iff_mem.2 hc, Bool.not_true] at h
+  exact absurd h (by simp)
+
+/-- in every state from which a committing `ask` of the history `ops` calls `_ask_best_point`, the chosen point has
+no value -/
+def AskNew (env : Env α) (ops : List (Op α)) : Prop := AlongRun env (ChooseNewAt env) (init env) ops
+
+/-- `AskNew` of a concrete history can be checked by evaluation -/
+theorem askNew_of_check (env : Env α) (ops : List (Op α))
+    (h : alongRunB env (chooseNewB env) (init env) ops = true) : AskNew env ops :=
+  alongRunB_sound env (chooseNewB_sound env) ops _ h
+
+/-- THE GHOST, PROVED: after `_ask_best_point` told the chosen point (which has no value) pending, the (sub)simplex
+it had chosen for subdivision is not a live queue key any more -/
 theorem chosen_dead (env : Env α) (hG : SubGeom env) (hC : ChooseGeom env) {s s2 : State α} {vs : List Pt}
     (ht : s.tri = some vs) (hv : SubVerts env s) {e : QE α} {q : List (QE α)} {p2s' : List (Pt × Simplex)}
     (hp : popHighest env (env.triSimps vs.length) s.book.subs s.book.queue = some (e, q))
+    (hnew : env.choose (chosenPts vs s.book.subs e) ∉ s.data)
     (h2 : tellPending env { s with book := { s.book with queue := q, p2s := p2s' } }
       (env.choose (chosenPts vs s.book.subs e)) (some e.simplex) = .ok s2) :
     live env (simplices env s2.tri) s2.book.subs e = false := by
@@ -184,7 +229,7 @@ theorem chosen_dead (env : Env α) (hG : SubGeom env) (hC : ChooseGeom env) {s s
     intro c; rw [c] at hlen; simp at hlen
   obtain ⟨b, hloop, t2, hb⟩ :=
     tellPending_hint env (s := { s with book := { s.book with queue := q, p2s := p2s' } })
-      (env.choose (chosenPts vs s.book.subs e)) e.simplex ht (hC.inside _) hne h2
+      (env.choose (chosenPts vs s.book.subs e)) e.simplex ht hnew (hC.inside _) hne h2
   have hnb : e.simplex ∈ neighborsOf (env.triSimps vs.length) e.simplex := mem_neighborsOf_self hmem hne
   have hnd : (neighborsOf (env.triSimps vs.length) e.simplex).Nodup := (hC.nodup _).filter _
   rw [t2, hb]
@@ -227,7 +272,7 @@ theorem askBest_point (env : Env α) {s s' : State α} {vs : List Pt} {r : Pt ×
 
 /-- `_ask_best_point` keeps the queue complete — no ghost -/
 theorem askBest_cover' (env : Env α) (hG : SubGeom env) (hC : ChooseGeom env) {s s' : State α} {vs : List Pt}
-    {r : Pt × α} (ht : s.tri = some vs) (hv : SubVerts env s) (hc : Cover env s)
+    {r : Pt × α} (hN : ChooseNewAt env s) (ht : s.tri = some vs) (hv : SubVerts env s) (hc : Cover env s)
     (h : askBest env s vs = .ok (r, s')) : Cover env s' := by
   obtain ⟨e, q, s2, hp, _, h2, rfl⟩ := askBest_form env h
   have hr1 : r.1 = env.choose (chosenPts vs s.book.subs e) := askBest_point env hp h
@@ -242,7 +287,7 @@ theorem askBest_cover' (env : Env α) (hG : SubGeom env) (hC : ChooseGeom env) {
       r.1 (some e.simplex) (some (pairOf e)) ht hq0 h2
   have hdead : live env (simplices env s2.tri) s2.book.subs e = false := by
     rw [hr1] at h2
-    exact chosen_dead env hG hC ht hv hp h2
+    exact chosen_dead env hG hC ht hv hp (hN vs e q ht hp) h2
   intro x hx o hl
   simp only [t2, simplices] at hx hdead
   have hne : some (x, o) ≠ some (pairOf e) := by
@@ -260,7 +305,7 @@ sub-triangulations, and the completeness of the queue -/
 def QFull (env : Env α) (s : State α) : Prop := KeysInv env s ∧ SubVerts env s ∧ Cover env s
 
 theorem qfull_preserved (env : Env α) (hT : TriGeom env) (hG : SubGeom env) (hC : ChooseGeom env) :
-    Preserved env (QFull env) where
+    PreservedIf env (ChooseNewAt env) (QFull env) where
   hTouch := fun hi h =>
     ⟨touchTri_keys env hi.1 h, touchTri_subVerts env hi.2.1 h, (touchTri_cover env hi.2.2 h).1⟩
   hPend := fun p hint hi h =>
@@ -269,8 +314,8 @@ theorem qfull_preserved (env : Env α) (hT : TriGeom env) (hG : SubGeom env) (hC
   hTell := fun p a b hi h =>
     ⟨tell_keys env hT.report p a b hi.1 h, tell_subVerts env hT p a b hi.2.1 h,
       (tell_cover env hT.report p a b hi.2.2 h).1⟩
-  hBest := fun hi ht h =>
-    ⟨askBest_keys env hi.1 h, askBest_subVerts env hi.2.1 h, askBest_cover' env hG hC ht hi.2.1 hi.2.2 h⟩
+  hBest := fun hN hi ht h =>
+    ⟨askBest_keys env hi.1 h, askBest_subVerts env hi.2.1 h, askBest_cover' env hG hC hN ht hi.2.1 hi.2.2 h⟩
   hRemove := fun {s} hi =>
     ⟨hi.1, (subVerts_preserved env hT).hRemove hi.2.1, removeUnfinished_cover env s hi.1⟩
   hRand := fun hi => ⟨hi.1, ⟨hi.2.1.1, hi.2.1.2⟩, hi.2.2⟩
@@ -278,14 +323,16 @@ theorem qfull_preserved (env : Env α) (hT : TriGeom env) (hG : SubGeom env) (hC
 theorem init_qfull (env : Env α) : QFull env (init env) :=
   ⟨init_keys env, init_subVerts env, by intro x hx; simp [init, simplices] at hx⟩
 
-/-- the queue is complete in every reachable state of every history — no ghost -/
+/-- the queue is complete in every reachable state of every history in which the points `_ask_best_point` chose had
+no value — no ghost -/
 theorem run_cover (env : Env α) (hT : TriGeom env) (hG : SubGeom env) (hC : ChooseGeom env) (ops : List (Op α))
-    {s : State α} (h : run env (init env) ops = .ok s) : Cover env s :=
-  (run_inv env (qfull_preserved env hT hG hC) ops (init_qfull env) h).2.2
+    (hN : AskNew env ops) {s : State α} (h : run env (init env) ops = .ok s) : Cover env s :=
+  (run_invIf env (qfull_preserved env hT hG hC) ops hN (init_qfull env) h).2.2
 
 /-- `_ask_best_point` leaves the ghost flag as it was: the geometric side condition it records holds -/
 theorem askBest_geomOK (env : Env α) (hG : SubGeom env) (hC : ChooseGeom env) {s s' : State α} {vs : List Pt}
-    {r : Pt × α} (ht : s.tri = some vs) (hv : SubVerts env s) (h : askBest env s vs = .ok (r, s')) :
+    {r : Pt × α} (hN : ChooseNewAt env s) (ht : s.tri = some vs) (hv : SubVerts env s)
+    (h : askBest env s vs = .ok (r, s')) :
     s'.book.geomOK = s.book.geomOK := by
   obtain ⟨e, q, s2, hp, _, h2, rfl⟩ := askBest_form env h
   have hr1 : r.1 = env.choose (chosenPts vs s.book.subs e) := askBest_point env hp h
@@ -294,7 +341,7 @@ theorem askBest_geomOK (env : Env α) (hG : SubGeom env) (hC : ChooseGeom env) {
       _ _ h2
   have hdead : live env (simplices env s2.tri) s2.book.subs e = false := by
     rw [hr1] at h2
-    exact chosen_dead env hG hC ht hv hp h2
+    exact chosen_dead env hG hC ht hv hp (hN vs e q ht hp) h2
   show (s2.book.geomOK && !(live env (simplices env s2.tri) s2.book.subs e)) = s.book.geomOK
   rw [hdead, g2]; simp
 
@@ -302,21 +349,21 @@ theorem askBest_geomOK (env : Env α) (hG : SubGeom env) (hC : ChooseGeom env) {
 def QFullG (env : Env α) (s : State α) : Prop := QFull env s ∧ s.book.geomOK = true
 
 theorem qfullG_preserved (env : Env α) (hT : TriGeom env) (hG : SubGeom env) (hC : ChooseGeom env) :
-    Preserved env (QFullG env) where
+    PreservedIf env (ChooseNewAt env) (QFullG env) where
   hTouch := fun hi h =>
     ⟨(qfull_preserved env hT hG hC).hTouch hi.1 h, (touchTri_geom env h).trans hi.2⟩
   hPend := fun p hint hi h =>
     ⟨(qfull_preserved env hT hG hC).hPend p hint hi.1 h, (tellPending_geom env p hint h).trans hi.2⟩
   hTell := fun p a b hi h =>
     ⟨(qfull_preserved env hT hG hC).hTell p a b hi.1 h, (tell_cover env hT.report p a b hi.1.2.2 h).2.trans hi.2⟩
-  hBest := fun hi ht h =>
-    ⟨(qfull_preserved env hT hG hC).hBest hi.1 ht h, (askBest_geomOK env hG hC ht hi.1.2.1 h).trans hi.2⟩
+  hBest := fun hN hi ht h =>
+    ⟨(qfull_preserved env hT hG hC).hBest hN hi.1 ht h, (askBest_geomOK env hG hC hN ht hi.1.2.1 h).trans hi.2⟩
   hRemove := fun hi => ⟨(qfull_preserved env hT hG hC).hRemove hi.1, hi.2⟩
   hRand := fun hi => ⟨(qfull_preserved env hT hG hC).hRand hi.1, hi.2⟩
 
-/-- under the truthfulness hypotheses the ghost flag of the model is true in every reachable state -/
+/-- under the truthfulness hypotheses (and `AskNew`) the ghost flag of the model is true in every reachable state -/
 theorem run_geomOK (env : Env α) (hT : TriGeom env) (hG : SubGeom env) (hC : ChooseGeom env) (ops : List (Op α))
-    {s : State α} (h : run env (init env) ops = .ok s) : s.book.geomOK = true :=
-  (run_inv env (qfullG_preserved env hT hG hC) ops ⟨init_qfull env, rfl⟩ h).2
+    (hN : AskNew env ops) {s : State α} (h : run env (init env) ops = .ok s) : s.book.geomOK = true :=
+  (run_invIf env (qfullG_preserved env hT hG hC) ops hN ⟨init_qfull env, rfl⟩ h).2
 
 end LND
